@@ -75,6 +75,10 @@ func genTreeEnv(r *core.Rng, dir string) (*TreeEnv, []string) {
 	}
 	add(ex.GOROOT+"/src/runtime/proc.go", goSrc)
 	remote = append(remote, "/remote/goroot/src/runtime/proc.go")
+	if r.Chance(0.3) {
+		// dumps of programs built with another Go installation
+		remote = append(remote, "/opt/go2/src/runtime/proc.go")
+	}
 	if r.Chance(0.7) {
 		// overlapping GOPATH roots: /r/src/a is itself a GOPATH nested in /r's src
 		add(g1+"/src/p/q.go", goSrc)
@@ -120,6 +124,13 @@ func genTreeEnv(r *core.Rng, dir string) (*TreeEnv, []string) {
 	if r.Chance(0.4) {
 		add(dir+"/run/main.go", "package main\n\nfunc main() {}\n")
 		remote = append(remote, dir+"/run/main.go")
+	}
+	if r.Chance(0.4) {
+		// two remote roots that differ only in letter case (two machines, or a
+		// case-preserving file system), each found in another local GOPATH
+		add(g1+"/src/casea/a.go", goSrc)
+		add(g2+"/src/caseb/b.go", goSrc)
+		remote = append(remote, "/home/User/go/src/casea/a.go", "/home/user/go/src/caseb/b.go")
 	}
 	remote = append(remote, "/nowhere/else/file.go")
 	return ex, remote
